@@ -204,6 +204,8 @@ Proof.
   - eapply inv_release; eauto.
   - unfold do_enabled in H. inversion H; subst. rewrite app_nil_r. eapply Inv_ghost; eauto.
   - eapply inv_fevent; eauto.
+  - unfold do_eventq in H. destruct (eff st t false); inversion H; subst; [|rewrite app_nil_r; auto].
+    apply Inv_inert; auto. intros o [<-|[<-|[]]]; split; simpl; auto.
 Qed.
 
 (* ---------------------------------------------------------------- histories *)
@@ -330,6 +332,8 @@ Section NewOpsRel.
   Proof. intros. unfold do_enabled. apply Rfilter. Qed.
   Lemma rel_fevent : forall st t k, R st (fst (do_fevent st t k)).
   Proof. intros. unfold do_fevent. destruct (eff st t false); apply Rrefl. Qed.
+  Lemma rel_eventq : forall st t q, R st (fst (do_eventq st t q)).
+  Proof. intros. unfold do_eventq. destruct (eff st t false); apply Rrefl. Qed.
 
   Lemma rel_release : forall st t k, R st (fst (do_release st t k)).
   Proof.
@@ -369,7 +373,7 @@ Proof.
   destruct o; simpl;
     [ apply (rel_new_guards cfg_eq cfg_eq_trans RF RP) | .. | apply (rel_hold cfg_eq cfg_eq_refl RG) | apply (rel_poke cfg_eq cfg_eq_refl RG)
     | apply (rel_peek cfg_eq cfg_eq_refl) | apply (rel_release cfg_eq cfg_eq_refl cfg_eq_trans RG RH frame_cfg)
-    | apply (rel_enabled cfg_eq RF) | apply (rel_fevent cfg_eq cfg_eq_refl) ].
+    | apply (rel_enabled cfg_eq RF) | apply (rel_fevent cfg_eq cfg_eq_refl) | apply (rel_eventq cfg_eq cfg_eq_refl) ].
   - rewrite do_new_unfold. destruct (hget h (st_handles st)); [apply cfg_eq_refl|].
     destruct (eff st t false) as [i|]; [|split; reflexivity].
     assert (R : match resolve st i t k with inl (st1, _, _) => cfg_eq st st1 | inr _ => True end).
